@@ -967,5 +967,7 @@ def run(ctx):
     ctx.run_rule('C02.11', 'T13', 'conditions under which the Slice lexer consumes, returns and switches modes (precondition ledger)', r_lexer_preconditions, prog)
     ctx.run_rule('C02.12', 'T13', 'conditions under which a parsed file is handed back or dropped (precondition ledger of the parser entry points)', r_parser_entry, prog)
     ctx.run_rule('C02.8b', 'T3', 'string literal escape machine', decisions.r_string_literal_escapes, prog)
+    from props import c03 as _c03
+    ctx.run_rule('C02.14', 'T1', 'every named element is registered under its own scoped name, a later definition taking the name (a module never does)', _c03.r_name_table_single_writer, prog)
     ctx.run_rule('C02.13', 'T2', 'a parsed file is handed back exactly when parsing succeeded without errors', decisions.r_parser_entries, prog, ('slice', 'preprocessor'))
     ctx.run_rule('C02.8c', 'T3', 'string unescaping machine', decisions.r_unescape_machine, prog)
